@@ -24,6 +24,11 @@ THEOREMS = {
         "MG.Eng.write_frames_position",
         "MG.Eng.write_frames_disjoint_window",
     ],
+    "MG.Proofs.Lemmas.InPlaceBase": [
+        "MG.C04V.inplace_on_base_seen_through_view",
+        "MG.C04V.mutate_base2_eq",
+        "MG.C04V.stage8b_spec",
+    ],
     "MG.Proofs.Lemmas.InPlaceView": [
         "MG.C04V.inplace_through_view_refines_numpy",
         "MG.C04V.mkDupGraph_one_view",
